@@ -4,12 +4,14 @@
 #   rename  every local variable, parameter, receiver and named result of pkg/... gets a new name
 #   log     a call without effect on the model (the shape of an added log line) starts every function body
 #   logall  the same at the start of every block (if/else/for/case bodies)
+#   negif   `if c {A} else {B}` becomes `if !(c) {B} else {A}`
+#   guard   a trailing `if c {A}` of a loop body becomes `if !(c) { continue }; {A}`
 # Evidence is written to a scratch directory, not to /verif/evidence.
 # usage: rename_check.sh [rename|log|logall]...   (default: all three)
 set -u
 export GOFLAGS=-mod=mod GOPROXY=off GOSUMDB=off GOTOOLCHAIN=local
 cd /verif/checker && go build -o ../bin/renamer ./cmd/renamer || exit 2
-modes="${*:-rename log logall}"
+modes="${*:-rename log logall negif guard}"
 rc=0
 for mode in $modes; do
 rm -rf /tmp/rename-repo /tmp/rename-verif && mkdir -p /tmp/rename-repo /tmp/rename-verif
